@@ -467,7 +467,7 @@ def _maybe_apply_am_pm(t: Time, ampm_match: str) -> Time:
     # match hhmm
     r"(?<!\d|\.)(?P<hour>(?:[01]\d)|(?:2[0-3]))(?P<minute>(?&_minute))"
     r"\s*(?P<clock>(uhr|h)\b)?"  # optional uhr (not the first letter of a word)
-    r"\s*(?P<ampm>\s*[ap]\.?m\.?)?(?!\d)"  # optional am/pm
+    r"\s*(?P<ampm>\s*[ap]\.?m\b\.?)?(?!\d)"  # optional am/pm
 )
 def ruleHHMMmilitary(ts: datetime, m: RegexMatch) -> Optional[Time]:
     t = Time(hour=int(m.match.group("hour")), minute=int(m.match.group("minute") or 0))
@@ -482,7 +482,7 @@ def ruleHHMMmilitary(ts: datetime, m: RegexMatch) -> Optional[Time]:
     # We try to match also the minute
     r"((?P<sep>:|uhr|h|\.)(?P<minute>(?&_minute)))?"
     r"\s*(?P<clock>(uhr|h)\b)?"  # We match uhr with no minute (a word, not a prefix)
-    r"(?P<ampm>\s*[ap]\.?m\.?)?"  # AM PM
+    r"(?P<ampm>\s*[ap]\.?m\b\.?)?"  # AM PM
     r"(?!\d)"
 )
 def ruleHHMM(ts: datetime, m: RegexMatch) -> Time:
